@@ -157,6 +157,19 @@ def check_string_job(args):
             if status != 'ok':
                 out['viol'].append(dict(kind='check-string-' + status, detail=msg, text=model_text())); continue
             if diags.items: out['diag_paths'] += 1
+            # functional oracle (reported under C13): an invalid-escape diagnostic is raised exactly for every backslash that is
+            # not itself escaped and is followed by something other than a quote or a backslash
+            esc = z3.BoolVal(False); inval = []
+            for k in range(1, n - 1):
+                isb = z3.And(z3.Not(esc), chars[k] == 92)
+                inval.append(z3.And(isb, chars[k + 1] != 39, chars[k + 1] != 92))
+                esc = isb
+            exp_count = z3.Sum([z3.If(c, 1, 0) for c in inval]) if inval else z3.IntVal(0)
+            okc, mc = solver.check([exp_count != len(diags.items)])
+            if okc:
+                text = ''.join(chr(mc.eval(c, model_completion=True).as_long()) for c in chars)
+                out['viol'].append(dict(kind='string-escape-diagnostics', text=text,
+                                        detail=f'{len(diags.items)} invalid-escape diagnostic(s) for the symbol {text!r}, which contains {mc.eval(exp_count)} invalid escape sequence(s)'))
             for d in diags.items:
                 sp = d.f[2].f[1]
                 lo, hi = [x.e if x.__class__ is Sym else z3.IntVal(x) for x in (sp.f[0], sp.f[1])]
@@ -219,6 +232,7 @@ def main(t, sd):
         if o.get('sema_panic') or o.get('sema_spans_ok') is False: sema_panics += 1
     reported = []
     known = load_known()
+    viol = [v for v in viol if v['kind'] != 'string-escape-diagnostics']
     for v in viol:
         if 'text' in v:
             full = "token A=" + v['text'] + ";\nstart s;\ns: A;\n"
